@@ -205,6 +205,18 @@ def d3(ck: Check) -> None:
                                                             for v_ in [fm.deref(x_, b_)] for c_ in ast.walk(v_))
                            for x_ in ast.walk(t))
                     for t, p_, b_ in fm.facts(fm.cfgn(n)))]
+    if len({text(a_.func.value) for a_ in adds}) > 1:
+        # several sets are filled under classification guards: the forbidden set is the one the end-point loop tests (`D[s] & H`
+        # followed by `continue`); the others are side tables and are judged by what is done with them
+        tested = set()
+        for n in own_walk(f.node):
+            if isinstance(n, ast.If) and any(isinstance(y, ast.Continue) for y in n.body):
+                for y in ast.walk(n.test):
+                    if isinstance(y, ast.BinOp) and isinstance(y.op, ast.BitAnd):
+                        tested |= {z.id for z in ast.walk(y) if isinstance(z, ast.Name)}
+        keep = {text(a_.func.value) for a_ in adds} & tested
+        if len(keep) == 1:
+            adds = [a_ for a_ in adds if text(a_.func.value) in keep]
     if not adds or len({text(a_.func.value) for a_ in adds}) != 1 or len({text(a_.args[0]) for a_ in adds}) != 1:
         raise AnalysisError("anchor vanished: hot-lava classification in successions_to_target")
     ad = adds[0]      # (several adds of the same node to the same set -- `if a: add  elif b: add` -- are one classification)
@@ -236,6 +248,20 @@ def d3(ck: Check) -> None:
                 return logic.B("GOAL")
             if nm == "node_is_minimal" and e.args and text(e.args[0]) == s:
                 return logic.B("MINIMAL")
+        if isinstance(e, ast.Compare) and len(e.ops) == 1 and isinstance(e.ops[0], (ast.Is, ast.IsNot)) and is_none(e.comparators[0]):
+            # `intersect(space, target) is None`: for the non-empty targets the property speaks about, the intersection of two
+            # spaces is falsy exactly when it is None
+            inner = e.left
+            if isinstance(inner, ast.Name):
+                try:
+                    sd_ = fm.single_def(inner.id, fm.cfgn(e))
+                except AnalysisError:
+                    sd_ = None
+                inner = sd_[1] if sd_ and isinstance(sd_[1], ast.Call) and not fm.stale(sd_[0], cn, sd_[1]) else None
+            if isinstance(inner, ast.Call) and callee_name(inner) == "intersect":
+                a_ = atomize(inner)
+                if a_ is not None:
+                    return logic.Not(a_) if isinstance(e.ops[0], ast.Is) else a_
         if isinstance(e, ast.Compare) and len(e.ops) == 1 and isinstance(e.ops[0], ast.In) and text(e.left) == s:
             # membership in the diagram's list of minimal trap spaces (= the expanded nodes without successors)
             c_ = e.comparators[0]
